@@ -4,9 +4,12 @@ import HcipyVerif.Model.Layer
 /-! Line-protocol front end of the C15 model.
 
 ```
-fin new nx ny vx vy seed | fin evolve t | fin reset 0|1      → ok c=[cx,cy] t=T rng=P orig=P noise=P
-inf new nx ny dx dy vx vy seed | inf evolve t | inf reset 0|1 → ok c=[..] t=T sub=[..] rng=P orig=P hist=H scr=s:h:j,…
-                                                                (backwards evolution: err value)
+fin new nx ny vx vy cn2 L0 seed | fin evolve t | fin reset 0|1 | fin setcn2 c | fin setl0 l | fin setvel vx vy
+      → ok c=[cx,cy] t=T rng=P orig=P noise=P v=[vx,vy] par=[cn2,L0] npar=[cn2,L0]
+inf new nx ny dx dy vx vy cn2 L0 seed | inf evolve t | inf reset 0|1 | inf setcn2 c | inf setl0 l | inf setvel vx vy
+      → ok c=[..] t=T sub=[..] rng=P orig=P hist=H v=[..] par=[cn2,L0] pars=cn2|L0;… scr=s:h:j:p,…
+        (p = index into pars: the parameters the sample was generated with; backwards evolution: err value;
+         `inf evolveq t` = evolve, answer without pars/scr)
 phases sx sy [kx…] [ky…]   (phasesold …)                      → ok [S_0,…]      flat, x fastest
 extrude left|right|top|bottom W H [new…] [screen…]            → ok […]          (naturals)
 ```
@@ -20,14 +23,24 @@ structure St where
 
 def showV2 (v : V2) : String := s!"[{showRat v.1},{showRat v.2}]"
 
-def showFin (L : FinL) : String :=
-  s!"ok c={showV2 L.center} t={showRat L.t} rng={L.rng.pos} orig={L.orig.pos} noise={L.noise.pos}"
+def showPar (p : Par) : String := s!"[{showRat p.cn2},{showRat p.L0}]"
 
-def showSym (s : Sym) : String := s!"{s.start}:{s.hist}:{s.j}"
+def showFin (L : FinL) : String :=
+  s!"ok c={showV2 L.center} t={showRat L.t} rng={L.rng.pos} orig={L.orig.pos} noise={L.noise.pos} " ++
+  s!"v={showV2 L.vel} par={showPar L.par} npar={showPar L.noisePar}"
+
+def showSym (pars : List Par) (s : Sym) : String := s!"{s.start}:{s.hist}:{s.j}:{pars.idxOf s.par}"
 
 def showInf (L : InfL) : String :=
-  s!"ok c={showV2 L.center} t={showRat L.t} sub={showV2 L.sub} rng={L.rng.pos} orig={L.orig.pos} hist={L.hist} scr=" ++
-    ",".intercalate (L.screen.map showSym)
+  let pars := (L.screen.map (·.par)).eraseDups
+  s!"ok c={showV2 L.center} t={showRat L.t} sub={showV2 L.sub} rng={L.rng.pos} orig={L.orig.pos} hist={L.hist} " ++
+  s!"v={showV2 L.vel} par={showPar L.par} pars=" ++ ";".intercalate (pars.map fun p => s!"{showRat p.cn2}|{showRat p.L0}") ++
+  " scr=" ++ ",".intercalate (L.screen.map (showSym pars))
+
+/-- bookkeeping only (long histories of tiny steps: the screen is printed at the reads' operations only) -/
+def showInfQ (L : InfL) : String :=
+  s!"ok c={showV2 L.center} t={showRat L.t} sub={showV2 L.sub} rng={L.rng.pos} orig={L.orig.pos} hist={L.hist} " ++
+  s!"v={showV2 L.vel} par={showPar L.par}"
 
 def parseBool? (s : String) : Option Bool :=
   if s == "0" then some false else if s == "1" then some true else none
@@ -38,12 +51,24 @@ def parseWhere? (s : String) : Option Where :=
 
 def step (st : St) : List String → St × String
   | ["reset"] => ({}, "ok")
-  | ["fin", "new", nx, ny, vx, vy, seed] =>
-    match parseNat? nx, parseNat? ny, parseRat? vx, parseRat? vy, parseNat? seed with
-    | some nx, some ny, some vx, some vy, some seed =>
-      let L := FinL.new nx ny (vx, vy) seed
+  | ["fin", "new", nx, ny, vx, vy, cn2, l0, seed] =>
+    match parseNat? nx, parseNat? ny, parseRat? vx, parseRat? vy, parseRat? cn2, parseRat? l0, parseNat? seed with
+    | some nx, some ny, some vx, some vy, some cn2, some l0, some seed =>
+      let L := FinL.new nx ny (vx, vy) ⟨cn2, l0⟩ seed
       ({ st with fin := some L }, showFin L)
-    | _, _, _, _, _ => (st, "bad-op")
+    | _, _, _, _, _, _, _ => (st, "bad-op")
+  | ["fin", "setcn2", c] =>
+    match st.fin, parseRat? c with
+    | some L, some c => let L := L.setCn2 c; ({ st with fin := some L }, showFin L)
+    | _, _ => (st, "bad-op")
+  | ["fin", "setl0", c] =>
+    match st.fin, parseRat? c with
+    | some L, some c => let L := L.setL0 c; ({ st with fin := some L }, showFin L)
+    | _, _ => (st, "bad-op")
+  | ["fin", "setvel", vx, vy] =>
+    match st.fin, parseRat? vx, parseRat? vy with
+    | some L, some vx, some vy => let L := L.setVel (vx, vy); ({ st with fin := some L }, showFin L)
+    | _, _, _ => (st, "bad-op")
   | ["fin", "evolve", t] =>
     match st.fin, parseRat? t with
     | some L, some t => let L := L.evolve t; ({ st with fin := some L }, showFin L)
@@ -52,18 +77,38 @@ def step (st : St) : List String → St × String
     match st.fin, parseBool? b with
     | some L, some b => let L := L.reset b; ({ st with fin := some L }, showFin L)
     | _, _ => (st, "bad-op")
-  | ["inf", "new", nx, ny, dx, dy, vx, vy, seed] =>
-    match parseNat? nx, parseNat? ny, parseRat? dx, parseRat? dy, parseRat? vx, parseRat? vy, parseNat? seed with
-    | some nx, some ny, some dx, some dy, some vx, some vy, some seed =>
+  | ["inf", "new", nx, ny, dx, dy, vx, vy, cn2, l0, seed] =>
+    match parseNat? nx, parseNat? ny, parseRat? dx, parseRat? dy, parseRat? vx, parseRat? vy, parseRat? cn2,
+        parseRat? l0, parseNat? seed with
+    | some nx, some ny, some dx, some dy, some vx, some vy, some cn2, some l0, some seed =>
       if dx = 0 || dy = 0 then (st, "bad-op") else
-      let L := InfL.new nx ny (dx, dy) (vx, vy) seed
+      let L := InfL.new nx ny (dx, dy) (vx, vy) ⟨cn2, l0⟩ seed
       ({ st with inf := some L }, showInf L)
-    | _, _, _, _, _, _, _ => (st, "bad-op")
+    | _, _, _, _, _, _, _, _, _ => (st, "bad-op")
+  | ["inf", "setcn2", c] =>
+    match st.inf, parseRat? c with
+    | some L, some c => let L := L.setCn2 c; ({ st with inf := some L }, showInf L)
+    | _, _ => (st, "bad-op")
+  | ["inf", "setl0", c] =>
+    match st.inf, parseRat? c with
+    | some L, some c => let L := L.setL0 c; ({ st with inf := some L }, showInf L)
+    | _, _ => (st, "bad-op")
+  | ["inf", "setvel", vx, vy] =>
+    match st.inf, parseRat? vx, parseRat? vy with
+    | some L, some vx, some vy => let L := L.setVel (vx, vy); ({ st with inf := some L }, showInf L)
+    | _, _, _ => (st, "bad-op")
   | ["inf", "evolve", t] =>
     match st.inf, parseRat? t with
     | some L, some t =>
       match L.evolve t with
       | some L => ({ st with inf := some L }, showInf L)
+      | none => (st, "err value")
+    | _, _ => (st, "bad-op")
+  | ["inf", "evolveq", t] =>
+    match st.inf, parseRat? t with
+    | some L, some t =>
+      match L.evolve t with
+      | some L => ({ st with inf := some L }, showInfQ L)
       | none => (st, "err value")
     | _, _ => (st, "bad-op")
   | ["inf", "reset", b] =>
